@@ -215,7 +215,8 @@ class AboutCentreMonitor(taps.Monitor):
             st["A"], st["b"] = h[:d, :d].copy(), h[:d, d].copy()
         elif self.which == "scale":
             s = rest[0] if rest else kw.get("scale")
-            st["A"], st["b"] = np.eye(d) * float(s), np.zeros(d)
+            sv = np.asarray(s, dtype=float)
+            st["A"], st["b"] = (np.eye(d) * float(sv) if sv.ndim == 0 else np.diag(sv)), np.zeros(d)
         elif self.which == "rotate":
             th = rest[0] if rest else kw.get("theta")
             deg = rest[1] if len(rest) > 1 else kw.get("degrees", True)
@@ -370,7 +371,10 @@ def w_about_centre(ctx, rng, i):
             tr = mt.UniformScale(float(rng.uniform(0.3, 3)), d)
         mt.transform_about_centre(obj, tr)
     elif which == "scale":
-        mt.scale_about_centre(obj, float(rng.uniform(0.2, 4)))
+        if rng.random() < 0.5:
+            mt.scale_about_centre(obj, float(rng.uniform(0.2, 4)))
+        else:
+            mt.scale_about_centre(obj, rng.uniform(0.2, 4, d))      # documented: float or (n_dims,) ndarray
     elif which == "rotate":
         theta = deg if degrees else float(np.deg2rad(deg))
         try:
